@@ -632,8 +632,8 @@ def p_mp_createClass(p):
                     continue  # Try again to create the class
 
                 if errcode == CIM_ERR_INVALID_SUPERCLASS:
-                    assert not fixedSuper  # Should not happen if we fixed it
-                    moffile = p.parser.mofcomp.find_mof(cc.superclass)
+                    moffile = None if fixedSuper or not cc.superclass \
+                        else p.parser.mofcomp.find_mof(cc.superclass)
                     if not moffile:
                         raise MOFDependencyError(
                             msg=_format(
